@@ -169,7 +169,12 @@ def _read_all(path):
     f = UKVFile(path, "r")
     try:
         ks = list(f.keys())
-        return ks, {k: f.get(k) for k in ks}
+        vals = {k: f.get(k) for k in ks}
+        # the bulk views of the same handle show the same records; if they do not, it is THEIR view that is judged
+        its = list(f.items())
+        if [k for k, _ in its] != ks or any(v != vals[k] for k, v in its) or list(f.values()) != [v for _, v in its]:
+            return [k for k, _ in its], dict(its)
+        return ks, vals
     finally:
         f.close()
 
